@@ -133,6 +133,8 @@ where
                     Socket::Client((si, st)) => {
                         stream.as_mut().insert(*next_id, st);
                         sink.as_mut().insert(*next_id, si);
+                        #[cfg(selium_verif)]
+                        crate::verif::emit("reqrep_adopt_client", &next_id.to_string());
 
                         *next_id += 1;
                     }
@@ -143,8 +145,12 @@ where
                                 message: "A replier already exists for this topic".into(),
                             };
                             *buffered_err = Some((Some(error_payload), si));
+                            #[cfg(selium_verif)]
+                            crate::verif::emit("reqrep_reject", "");
                         } else {
                             let _ = server.insert((si, st));
+                            #[cfg(selium_verif)]
+                            crate::verif::emit("reqrep_bind", "");
                         }
                     }
                 },
@@ -191,6 +197,8 @@ where
                         ready!(si.poll_flush_unpin(cx)).unwrap();
                         ready!(sink.as_mut().poll_flush(cx)).unwrap();
                         *server = None;
+                        #[cfg(selium_verif)]
+                        crate::verif::emit("reqrep_unbind", "stream ended");
                     }
                     // No messages are available at this time
                     Poll::Pending => {
